@@ -150,7 +150,21 @@ pub fn run_contained(timeout_s: u32, body: impl FnOnce() -> Value) -> ChildEnd {
             libc::alarm(timeout_s);
         }
         REPORT_FD.store(fds[1], std::sync::atomic::Ordering::SeqCst);
-        let v = body();
+        // a panic that no scenario step expected (it escaped every catch of the scenario body) is an
+        // observation about the tree under test, not a harness failure
+        let v = match std::panic::catch_unwind(std::panic::AssertUnwindSafe(body)) {
+            Ok(v) => v,
+            Err(p) => {
+                let msg = if let Some(s) = p.downcast_ref::<String>() {
+                    s.clone()
+                } else if let Some(s) = p.downcast_ref::<&str>() {
+                    s.to_string()
+                } else {
+                    "<non-string payload>".to_string()
+                };
+                serde_json::json!({"escaped_panic": msg})
+            }
+        };
         let s = serde_json::to_vec(&v).unwrap();
         let mut off = 0;
         while off < s.len() {
